@@ -204,39 +204,70 @@ func c17SizeLimit(rt *rapid.T, rec *ev.Recorder) {
 		rt.Fatalf("GetCertificateBuildParamsInternal failed on a valid layout: %v", err)
 	}
 	// specification
-	want := l.To
-	if limit != 0 {
-		want = l.From
-		for t := l.To; t >= l.From; t-- {
-			if l.size(t, ct) <= limit {
-				want = t
-				break
+	judge := func(l c17Layout, got *types.CertificateBuildParams) uint64 {
+		want := l.To
+		if limit != 0 {
+			want = l.From
+			for t := l.To; t >= l.From; t-- {
+				if l.size(t, ct) <= limit {
+					want = t
+					break
+				}
 			}
 		}
-	}
-	// monotonicity of the size estimate in the prefix (the cut relies on it)
-	var prevSize uint
-	for t := l.From; t <= l.To; t++ {
-		s := l.size(t, ct)
-		if s < prevSize {
-			rt.Fatalf("EstimatedSize not monotone in the prefix: size(<=%d)=%d < size(<=%d)=%d", t, s, t-1, prevSize)
+		// monotonicity of the size estimate in the prefix (the cut relies on it)
+		var prevSize uint
+		for t := l.From; t <= l.To; t++ {
+			s := l.size(t, ct)
+			if s < prevSize {
+				rt.Fatalf("EstimatedSize not monotone in the prefix: size(<=%d)=%d < size(<=%d)=%d", t, s, t-1, prevSize)
+			}
+			prevSize = s
 		}
-		prevSize = s
+		if got.FromBlock != l.From {
+			rt.Fatalf("first block changed: got %d want %d", got.FromBlock, l.From)
+		}
+		if got.ToBlock != want {
+			rt.Fatalf("layout[%s] from=%d limit=%d: cut ends at %d, largest permitted block is %d (size there %d, size at %d is %d)",
+				l.Desc, l.From, limit, got.ToBlock, want, l.size(want, ct), want+1, l.size(min64(want+1, l.To), ct))
+		}
+		wb, wc := l.prefix(want)
+		if err := c17SameEvents(got.Bridges, got.Claims, wb, wc); err != nil {
+			rt.Fatalf("layout[%s] limit=%d cut to %d: %v", l.Desc, limit, want, err)
+		}
+		if limit != 0 && got.EstimatedSize() > limit && got.ToBlock != got.FromBlock {
+			rt.Fatalf("result exceeds the limit (%d > %d) although it spans %d blocks", got.EstimatedSize(), limit, got.ToBlock-got.FromBlock+1)
+		}
+		return want
 	}
-	if got.FromBlock != l.From {
-		rt.Fatalf("first block changed: got %d want %d", got.FromBlock, l.From)
-	}
-	if got.ToBlock != want {
-		rt.Fatalf("layout[%s] from=%d limit=%d: cut ends at %d, largest permitted block is %d (size there %d, size at %d is %d)",
-			l.Desc, l.From, limit, got.ToBlock, want, l.size(want, ct), want+1, l.size(min64(want+1, l.To), ct))
+	want := judge(l, got)
+	if limit != 0 && rapid.IntRange(0, 2).Draw(rt, "sameFlowObjectAgain") == 0 {
+		// the same flow object is asked again for the same block range holding other events (what it sees after the L2
+		// syncer re-synced a reorged range up to the same tip): cutting is a function of the events it is given
+		l2 := c17GenLayout(rt)
+		shift := func(n uint64) uint64 { return l.From + (n - l2.From) }
+		var bs []bridgesync.Bridge
+		var cs []bridgesync.Claim
+		for _, x := range l2.Bridges {
+			if x.BlockNum = shift(x.BlockNum); x.BlockNum <= l.To {
+				bs = append(bs, x)
+			}
+		}
+		for _, x := range l2.Claims {
+			if x.BlockNum = shift(x.BlockNum); x.BlockNum <= l.To {
+				cs = append(cs, x)
+			}
+		}
+		l2.From, l2.To, l2.Bridges, l2.Claims, l2.Desc = l.From, l.To, bs, cs, l2.Desc+"(second request on the same flow object)"
+		q.bridges, q.claims = bs, cs
+		got2, err := bf.GetCertificateBuildParamsInternal(context.Background(), ct)
+		if err != nil {
+			rt.Fatalf("second GetCertificateBuildParamsInternal on the same flow object failed on a valid layout: %v", err)
+		}
+		judge(l2, got2)
+		rec.Class("size_limit_same_flow_object_asked_twice")
 	}
 	wb, wc := l.prefix(want)
-	if err := c17SameEvents(got.Bridges, got.Claims, wb, wc); err != nil {
-		rt.Fatalf("layout[%s] limit=%d cut to %d: %v", l.Desc, limit, want, err)
-	}
-	if limit != 0 && got.EstimatedSize() > limit && got.ToBlock != got.FromBlock {
-		rt.Fatalf("result exceeds the limit (%d > %d) although it spans %d blocks", got.EstimatedSize(), limit, got.ToBlock-got.FromBlock+1)
-	}
 	if prev == 2 && (got.RetryCount != last.RetryCount+1 || !got.IsARetry()) {
 		rt.Fatalf("retry bookkeeping lost: %d", got.RetryCount)
 	}
